@@ -491,6 +491,9 @@ class IntegrityChecker(object):
             spe = self.ds.config["fluorescence"]["samples per event"]
             if "trace" in self.ds:
                 for key in self.ds["trace"].keys():
+                    if len(self.ds["trace"][key]) == 0:
+                        # empty trace (reported by check_feature_size)
+                        continue
                     spek = self.ds["trace"][key][0].size
                     if spek != spe:
                         cues.append(ICue(
